@@ -18,5 +18,5 @@ if os.path.exists(rep):
         det = sorted({k.split("/")[0] for k, v in ch.items() if v})
         mis = sorted({k.split("/")[0] for k, v in ch.items() if not v})
         who = "revert of a fix: commit" if e["mutant"].startswith("revert:") else "hand-written mutant"
-        print("| %s | %s | - | - | %s | %s | %s |" % (e["mutant"][:80], who, {True: "pass", False: "FAIL", None: "n/a"}[e.get("tests_pass")],
+        print("| %s | %s | - | %s | %s | %s | %s |" % (e["mutant"][:80], who, e.get("note", "-"), {True: "pass", False: "FAIL", None: "n/a"}[e.get("tests_pass")],
                                                    ", ".join(det) or "-", ", ".join(mis) or "-"))
